@@ -1,2 +1,4 @@
 import CircusProofs.Lemmas.FileStream
 import CircusProofs.Props.C20
+import CircusProofs.Lemmas.Argv
+import CircusProofs.Props.C13
